@@ -304,7 +304,7 @@ class _VBTok:
         return self
 
 
-@obligation(("C02", "C03"), "nested.viewport", split=("overflow", (None, "hidden", "visible", "scroll")), functions=["svg.SVG._unnest_svg", "svg.SVG._iter_nested_svgs", "svg.SVG._swap_elements"])
+@obligation(("C02", "C03", "C06", "C15"), "nested.viewport", split=("overflow", (None, "hidden", "visible", "scroll")), functions=["svg.SVG._unnest_svg", "svg.SVG._iter_nested_svgs", "svg.SVG._swap_elements"])
 def nested_viewport(H):
     """_unnest_svg: the inner svg becomes a group holding its children in order; a point of the content is mapped by the
     viewBox->viewport mapping (rect_to_rect(viewBox, viewport, preserveAspectRatio, default xMidYMid) when a viewBox is
